@@ -166,7 +166,7 @@ pub fn check_union(c: &Case, st: &mut Stats) -> Result<(), Failure> {
     let t2 = format!("{}{}{}", tb, c.joiner, ta);
     let r2 = parse(&t2)?;
     pointwise_equal("alternatives swapped", &text, &Some(r.clone()), &t2, &r2, &pv, st)?;
-    let mut rev = RangeAst { alts: c.a.alts.iter().chain(c.b.alts.iter()).rev().cloned().collect(), ors: vec![] };
+    let mut rev = RangeAst::of(c.a.alts.iter().chain(c.b.alts.iter()).rev().cloned().collect(), vec![]);
     rev.ors = vec![(1, 1); rev.alts.len().saturating_sub(1)];
     let t3 = rev.render();
     let r3 = parse(&t3)?;
